@@ -135,6 +135,8 @@ type Sim struct {
 	aborting atomic.Bool
 	pcount   int
 
+	forceQuantum time.Duration
+
 	settling    bool
 	settleQuiet time.Duration
 	settleEnd   int
@@ -693,7 +695,13 @@ func (s *Sim) Run() Outcome {
 			// runnable tasks have been going for a long stretch of steps while others are blocked in
 			// the runtime (possibly on timers): a task that polls for their progress (a spin loop in the
 			// code under test) would otherwise starve them of simulated time
-			adv = s.cfg.MaxIdle - s.Idle
+			// The wait escalates (x4 per forced advance) instead of spending the whole idle budget at
+			// once: a run that is merely long must not be mistaken for a hang.
+			if s.forceQuantum == 0 {
+				s.forceQuantum = time.Millisecond
+			}
+			adv = min(s.forceQuantum, s.cfg.MaxIdle-s.Idle)
+			s.forceQuantum *= 4
 			forced = true
 		} else if s.cfg.AdvanceDenom > 0 && len(s.cfg.TimeSteps) > 0 && s.Tape.Draw(StSched, s.cfg.AdvanceDenom) == 1 {
 			adv = s.cfg.TimeSteps[s.Tape.Draw(StSched, len(s.cfg.TimeSteps))]
